@@ -251,6 +251,55 @@ namespace bloch::compiler {
         return out;
     }
 
+    SemanticAnalyser::TypeInfo SemanticAnalyser::instantiationOf(const TypeInfo& from,
+                                                                  const std::string& owner) const {
+        TypeInfo cur = from;
+        for (int depth = 0; depth < 64; ++depth) {
+            if (cur.className == owner)
+                return cur;
+            const ClassInfo* info = findClass(cur.className);
+            if (!info || info->base.empty())
+                break;
+            if (!info->baseType.className.empty())
+                cur = substituteTypeParams(info->baseType, info->typeParams, cur.typeArgs);
+            else
+                cur = combine(ValueType::Unknown, info->base);
+        }
+        return combine(ValueType::Unknown, owner);
+    }
+
+    SemanticAnalyser::TypeInfo SemanticAnalyser::memberTypeIn(const TypeInfo& from,
+                                                               const std::string& owner,
+                                                               const TypeInfo& memberType) const {
+        const ClassInfo* info = findClass(owner);
+        if (!info || info->typeParams.empty())
+            return memberType;
+        return substituteTypeParams(memberType, info->typeParams,
+                                    instantiationOf(from, owner).typeArgs);
+    }
+
+    std::vector<SemanticAnalyser::TypeInfo> SemanticAnalyser::memberTypesIn(
+        const TypeInfo& from, const std::string& owner,
+        const std::vector<TypeInfo>& memberTypes) const {
+        std::vector<TypeInfo> res;
+        res.reserve(memberTypes.size());
+        for (const auto& t : memberTypes) res.push_back(memberTypeIn(from, owner, t));
+        return res;
+    }
+
+    // The class being analysed, instantiated with its own type parameters.
+    SemanticAnalyser::TypeInfo SemanticAnalyser::currentClassType() const {
+        TypeInfo self = combine(ValueType::Unknown, m_currentClass);
+        if (const ClassInfo* info = findClass(m_currentClass)) {
+            for (const auto& tp : info->typeParams) {
+                TypeInfo arg = combine(ValueType::Unknown, tp.name);
+                arg.isTypeParam = true;
+                self.typeArgs.push_back(arg);
+            }
+        }
+        return self;
+    }
+
     std::vector<SemanticAnalyser::TypeInfo> SemanticAnalyser::substituteMany(
         const std::vector<TypeInfo>& types, const std::vector<ClassInfo::TypeParamInfo>& params,
         const std::vector<TypeInfo>& args) const {
@@ -338,8 +387,7 @@ namespace bloch::compiler {
             auto mit = cur->methods.find(method);
             if (mit != cur->methods.end()) {
                 for (auto& cand : mit->second) {
-                    auto expected =
-                        substituteMany(cand.paramTypes, cur->typeParams, searchType.typeArgs);
+                    auto expected = memberTypesIn(searchType, cur->name, cand.paramTypes);
                     std::string signature = methodSignatureLabel(cand.name, expected);
                     if (hiddenSignatures.count(signature))
                         continue;
@@ -1331,7 +1379,7 @@ namespace bloch::compiler {
             if (local.value != ValueType::Unknown || !local.className.empty())
                 return local;
             if (auto field = resolveField(var->name, var->line, var->column))
-                return field->type;
+                return memberTypeIn(currentClassType(), field->owner, field->type);
             // If it's a known type name, treat it as a type reference (e.g., for static calls).
             if (m_symbols.isTypeName(var->name))
                 return combine(ValueType::Unknown, var->name);
@@ -1348,7 +1396,7 @@ namespace bloch::compiler {
         if (dynamic_cast<SuperExpression*>(expr)) {
             const ClassInfo* cur = findClass(m_currentClass);
             if (cur && !cur->base.empty())
-                return combine(ValueType::Unknown, cur->base);
+                return instantiationOf(currentClassType(), cur->base);
             return combine(ValueType::Unknown, "");
         }
         if (auto call = dynamic_cast<CallExpression*>(expr)) {
@@ -1369,7 +1417,7 @@ namespace bloch::compiler {
                             return combine(ValueType::Unknown, "");
                         if (!isAccessible(method->visibility, method->owner, m_currentClass))
                             return combine(ValueType::Unknown, "");
-                        return method->returnType;
+                        return memberTypeIn(currentClassType(), method->owner, method->returnType);
                     }
                 }
             } else if (auto mem = dynamic_cast<MemberAccessExpression*>(call->callee.get())) {
@@ -1379,9 +1427,8 @@ namespace bloch::compiler {
                     if (method) {
                         TypeInfo ret = method->returnType;
                         const ClassInfo* cls = findClass(obj.className);
+                        ret = memberTypeIn(obj, method->owner, ret);
                         if (cls && !cls->typeParams.empty()) {
-                            // First, substitute class-level type arguments directly.
-                            ret = substituteTypeParams(ret, cls->typeParams, obj.typeArgs);
                             // Infer type arguments from actual call arguments (very simple: map
                             // type params to the corresponding actual argument types).
                             std::unordered_map<std::string, TypeInfo> binding;
@@ -1478,7 +1525,7 @@ namespace bloch::compiler {
                 if (local.value != ValueType::Unknown || !local.className.empty())
                     return local;
                 if (auto field = resolveField(v->name, v->line, v->column))
-                    return field->type;
+                    return memberTypeIn(currentClassType(), field->owner, field->type);
                 return combine(ValueType::Unknown, "");
             }
             return combine(ValueType::Unknown, "");
@@ -1493,25 +1540,11 @@ namespace bloch::compiler {
                         searchType = *bound;
                 }
                 auto* field = findFieldInHierarchy(searchType, mem->member);
-                if (field) {
-                    if (!searchType.typeArgs.empty()) {
-                        const ClassInfo* ci = findClass(searchType.className);
-                        if (ci)
-                            return substituteTypeParams(field->type, ci->typeParams,
-                                                        searchType.typeArgs);
-                    }
-                    return field->type;
-                }
+                if (field)
+                    return memberTypeIn(searchType, field->owner, field->type);
                 auto* method = findMethodInHierarchy(searchType, mem->member);
-                if (method) {
-                    if (!searchType.typeArgs.empty()) {
-                        const ClassInfo* ci = findClass(searchType.className);
-                        if (ci)
-                            return substituteTypeParams(method->returnType, ci->typeParams,
-                                                        searchType.typeArgs);
-                    }
-                    return method->returnType;
-                }
+                if (method)
+                    return memberTypeIn(searchType, method->owner, method->returnType);
             }
             return combine(ValueType::Unknown, "");
         }
@@ -1933,7 +1966,7 @@ namespace bloch::compiler {
         if (auto field = resolveField(node.name, node.line, node.column)) {
             recordFinalFieldAssignment(*field, node.name, node.line, node.column);
             if (node.value) {
-                TypeInfo targetType = field->type;
+                TypeInfo targetType = memberTypeIn(currentClassType(), field->owner, field->type);
                 inferDiamondTypeArguments(node.value.get(), targetType, node.line, node.column);
                 auto valType = inferTypeInfo(node.value.get());
                 bool fieldIsArray =
@@ -2285,7 +2318,9 @@ namespace bloch::compiler {
                 }
             }
             if (methodInfo) {
-                checkArgs(methodInfo->paramTypes, var->name, node.line, node.column);
+                checkArgs(memberTypesIn(currentClassType(), methodInfo->owner,
+                                        methodInfo->paramTypes),
+                          var->name, node.line, node.column);
             } else {
                 size_t expected = getFunctionParamCount(var->name);
                 if (expected != node.arguments.size()) {
@@ -2355,9 +2390,7 @@ namespace bloch::compiler {
                                      "static methods should be accessed via the type, not super");
                 }
             }
-            auto params = method->paramTypes;
-            if (cls)
-                params = substituteMany(params, cls->typeParams, searchType.typeArgs);
+            auto params = memberTypesIn(searchType, method->owner, method->paramTypes);
             checkArgs(params, member->member, node.line, node.column);
         } else if (auto superCtor = dynamic_cast<SuperExpression*>(node.callee.get())) {
             (void)superCtor;
@@ -2621,7 +2654,7 @@ namespace bloch::compiler {
         if (auto field = resolveField(node.name, node.line, node.column)) {
             recordFinalFieldAssignment(*field, node.name, node.line, node.column);
             if (node.value) {
-                TypeInfo targetType = field->type;
+                TypeInfo targetType = memberTypeIn(currentClassType(), field->owner, field->type);
                 inferDiamondTypeArguments(node.value.get(), targetType, node.line, node.column);
                 auto valType = inferTypeInfo(node.value.get());
                 bool fieldIsArray =
@@ -2700,9 +2733,7 @@ namespace bloch::compiler {
             recordFinalFieldAssignment(*field, node.member, node.line, node.column);
         }
         if (node.value) {
-            TypeInfo targetType = field->type;
-            if (!searchType.typeArgs.empty() && cls)
-                targetType = substituteTypeParams(targetType, cls->typeParams, searchType.typeArgs);
+            TypeInfo targetType = memberTypeIn(searchType, field->owner, field->type);
             inferDiamondTypeArguments(node.value.get(), targetType, node.line, node.column);
             auto valType = inferTypeInfo(node.value.get());
             bool fieldIsArray = targetType.className.size() >= 2 &&
